@@ -129,6 +129,17 @@ def gen_case(rng, gpg=None, stratum=None):
                 stratum = "sole:threshold"
         elif filt == "threshold":
             pass
+    # an exact COPY of a valid entry, filed under another authorized key that has no entry of its own
+    # (the copy does not verify under that key; the original must still count)
+    if rng.random() < 0.3:
+        have = {p[0] for p in pairs}
+        free = [k for k in auth if k.hex not in have]
+        valid_pairs = [p for p, st in zip(pairs, st_names) if st in vs and p[0] in {k.hex for k in auth}]
+        if free and valid_pairs:
+            import copy as _copy
+
+            pairs.insert(0, [free[0].hex, _copy.deepcopy(rng.choice(valid_pairs)[1])])
+            st_names.insert(0, "copy_of_other_keys_valid_entry")
     # junk
     nj = rng.choice([0, 0, 1, 2, 5])
     for _ in range(nj):
